@@ -231,6 +231,21 @@ theorem c07_content_stage_shape :
 
 example : "        msgReturn = append(msgReturn, submitter...)" ∈ Gen.DosnodeFlow.genQueryResult := by simp [Gen.DosnodeFlow.genQueryResult]
 
+/-- **the content functions read nothing but their arguments** (round 5): inside `dataParse`, `dataFetch`, `genQueryResult`, `genSysRandom`, `genUserRandom`, `choseSubmitter`, `padOrTrim` there is NO call into time / rand / os / runtime / syscall / sync / atomic / unsafe / reflect whose value could reach the result (`contentForbidden = []`): the only such reads are two `time.Now()` whose every later use is inside a logging statement, and every `range` runs over a slice declared in the pinned skeleton (`nodes []*ajson.Node`, the result of `xmlquery.Find`, `outs []chan []byte`) – no map iteration.  Together with `c07_no_package_state` (no package-level variable) and the `…Refs` lists (no helper with state) this is the code-side of "the content is a function of the request fields and the fetched document only". -/
+theorem c07_content_reads_nothing_else :
+    Gen.DosnodeFlow.contentForbidden = []
+    ∧ Gen.DosnodeFlow.contentClockVars = [
+      "genQueryResult: startTime := time.Now()",
+      "choseSubmitter: start := time.Now()"]
+    ∧ Gen.DosnodeFlow.contentRanges = [
+      "dataParse: nodes",
+      "dataParse: xmlNodes",
+      "choseSubmitter: outs",
+      "choseSubmitter: outs"] := by
+  refine ⟨?_, ?_, ?_⟩ <;> rfl
+
+example : Gen.DosnodeFlow.contentForbidden.length = 0 ∧ Gen.DosnodeFlow.contentClockVars.length = 2 := by decide
+
 /-- `choseSubmitter`: `submitter := lastSysRand.Uint64() % uint64(len(ids))`, then `ids[submitter]` on every output channel – the list is indexed as it was handed in (no copy, sort or de-duplication). -/
 theorem c07_submitter_shape :
     Gen.DosnodeFlow.choseSubmitter = [
